@@ -207,6 +207,21 @@ func checkC06(p *Program, r *Report) {
 		"the decoded length, the compression marker and the checksum", approvedChecksumConds(p, fn)); n == 0 {
 		r.Unresolved("C06.accepts", "rejection tests of DecodeWIF")
 	}
+	// the encoding side refuses no key: NewWIF may refuse for its network argument only (C06-agent5-m2: a "defensive"
+	// len(D.Bytes()) == 32 test refuses every key with a leading zero byte)
+	if nw := p.Func("", "NewWIF"); nw != nil {
+		r.Analysed(FnName(nw))
+		refusesOnlyFor(p, r, "C06.total", nw, func(pa *ssa.Parameter) bool { return isNamed(derefType(pa.Type()), "github.com/gcash/bchd/chaincfg", "Params") }, "the network argument")
+		nret := 0
+		for _, ap := range acceptPoints(nw) {
+			_ = ap
+			nret++
+		}
+		r.Add("C06.total", FnName(nw), "the constructor has an accepting return", nw.Pos(), nret > 0, fmt.Sprintf("%d accepting return(s)", nret))
+	} else {
+		r.Unresolved("C06.total", "NewWIF")
+	}
+	r.Floor("C06.total", 1)
 	r.Floor("C06.accepts", 3)
 	r.Floor("C06.len", 1)
 	r.Floor("C06.canon", 1)
